@@ -48,20 +48,20 @@ Definition vhdx_find_meta_entry (guid : bytes) (s : ist unit) : ist unit * res (
   | Exn e => (s, Exn e)
   | Ok m =>
     let buf := r_data m in
-    if blen buf <? VHDX_MT_MIN then (s, Ok None) else
+    if flen buf <? VHDX_MT_MIN then (s, Ok None) else
     match unpack sf_vhdx_mt_hdr (ntake VHDX_MT_HDR buf) with
     | Exn e => (s, Exn e)
     | Ok b =>
       let sig := sraw sf_vhdx_mt_hdr 0 b in
       let count := sint sf_vhdx_mt_hdr 2 b in
       if negb (beq sig VHDX_META_SIG) then (s, Exn ImageFormatError) else
-      if blen buf <? VHDX_MT_BASE + count * VHDX_MT_STRIDE then (s, Ok None) else
+      if flen buf <? VHDX_MT_BASE + count * VHDX_MT_STRIDE then (s, Ok None) else
       if VHDX_MT_LIMIT <=? count then (s, Exn ImageFormatError) else
       match vhdx_mt_loop (N.to_nat count) guid (nskip VHDX_MT_BASE2 buf) with
       | Exn e => (s, Exn e)
       | Ok None => (s, Ok None)
       | Ok (Some (item_offset, item_length)) =>
-        (set_regs s (rset R_metadata (set_len m (blen buf)) (i_regs s)),
+        (set_regs s (rset R_metadata (set_len m (flen buf)) (i_regs s)),
          Ok (Some (mkRspec false (r_off m + item_offset) item_length None)))
       end
     end
